@@ -26,6 +26,7 @@ CONSTANTS
     Comp,        \* all components that can exist (strings "d1.a"); Owner[c] its dataset
     Owner,
     Initial,     \* components every dataset starts with (subset of Comp)
+    InitialColl, \* datasets in the collection at the start
     LinkMenu,    \* set of link records
     MaxDelay,
     MaxLinks     \* bound on simultaneously registered links
@@ -77,11 +78,11 @@ Exp(co, cs, ls) == TLCEval([d \in Dataset |-> IF d \in co THEN ExpFor(d, cs, ls)
 A(op, d, c, l, s) == [op |-> op, d |-> d, c |-> c, l |-> l, s |-> s]
 
 Init ==
-    /\ coll = {}
+    /\ coll = InitialColl
     /\ comps = Initial
     /\ links = {}
     /\ delay = 0
-    /\ exp = Exp({}, Initial, {})
+    /\ exp = Exp(InitialColl, Initial, {})
     /\ act = A("Init", "-", "-", "-", {})
 
 Usable(l, co, cs) == Mentions(l) \subseteq cs /\ \A c \in Mentions(l) : Owner[c] \in co
